@@ -679,8 +679,6 @@ SITE_EXCEPT = {
 
 
 F5B_EXCEPT = {
-    "Hsetlength": "only valid while access_rec->new_elem is set, i.e. on an element created in this session (which needed write permission); the "
-                  "read-only replay (triage/c14_readonly_calls.c: Hnextread to an empty element, then Hsetlength) is refused — not shown to misbehave",
     "HRPconvert": "creates the image DD only when Hexist() says it does not exist; an image listed by a read-only file always exists, and the "
                   "path could not be replayed — not shown to misbehave, so neither listed nor armed",
     "HXPsetaccesstype": "unreachable in practice: Hsetaccesstype returns early when the access type is unchanged and DFACC_SERIAL (the default) "
